@@ -9,6 +9,7 @@ package refsshmux
 import (
 	"io"
 	"net"
+	"runtime"
 	"sync"
 	"sync/atomic"
 	"time"
@@ -49,6 +50,77 @@ func newHalf(capacity int, prog *Progress) *half {
 type pipeConn struct {
 	r, w *half
 	name string
+	hold *Hold // optional: "deliver, then park" mode for this end's writes
+}
+
+// Hold is the "deliver, then park" mode of one end of the link: while armed,
+// a Write on that end hands its bytes to the peer at once but does not return
+// before the peer has written something back, or nothing at all has moved for
+// a while (the peer is waiting too).  It widens the window between "the bytes
+// are visible to the peer" and "the writer continues", which a real network
+// opens only rarely.  It is a schedule perturbation, never an oracle.
+type Hold struct {
+	left atomic.Int64 // number of further writes to hold
+	Held atomic.Int64 // writes that were actually held until the peer answered
+}
+
+// Arm holds the next n writes.
+func (h *Hold) Arm(n int) {
+	if h != nil {
+		h.left.Store(int64(n))
+	}
+}
+
+func (h *Hold) take() bool {
+	if h == nil {
+		return false
+	}
+	for {
+		n := h.left.Load()
+		if n <= 0 {
+			return false
+		}
+		if h.left.CompareAndSwap(n, n-1) {
+			return true
+		}
+	}
+}
+
+// NewPipeHold is NewPipe with a Hold controlling the writes of end a.
+func NewPipeHold(prog *Progress, capAB, capBA int) (a, b net.Conn, h *Hold) {
+	a, b = NewPipe(prog, capAB, capBA)
+	h = &Hold{}
+	a.(*pipeConn).hold = h
+	return a, b, h
+}
+
+// park keeps the writer of end c waiting after its bytes were delivered.
+func (c *pipeConn) park() {
+	peer := c.r // the peer writes into our read half
+	peer.mu.Lock()
+	base := peer.moved
+	peer.mu.Unlock()
+	last := peer.prog.Load()
+	quiet := 0
+	for i := 0; i < 2000; i++ { // bounded: at most a few dozen milliseconds
+		runtime.Gosched()
+		time.Sleep(20 * time.Microsecond)
+		peer.mu.Lock()
+		moved, closed := peer.moved, peer.closed
+		peer.mu.Unlock()
+		if moved != base {
+			c.hold.Held.Add(1)
+			return
+		}
+		if closed {
+			return
+		}
+		if cur := peer.prog.Load(); cur != last {
+			last, quiet = cur, 0
+		} else if quiet++; quiet > 25 {
+			return // nothing moves anywhere: the peer is waiting as well
+		}
+	}
 }
 
 type pipeAddr string
@@ -111,6 +183,11 @@ func (c *pipeConn) Write(p []byte) (int, error) {
 		total += n
 		h.prog.Tick()
 		h.cond.Broadcast()
+	}
+	if total > 0 && c.hold.take() {
+		h.mu.Unlock()
+		c.park()
+		h.mu.Lock()
 	}
 	return total, nil
 }
